@@ -18,7 +18,7 @@ ID = "C06"
 MANIFEST = {
     "category": "exploration",
     "text": "Generated-input search: unconstrained expressions of the evaluation domain (about half invalid by injecting a neutral-only operand into an O/X over rc-carrying operands, or a bare hint/bare format-constraint pair, at any depth) are judged by the structural criterion computed on the generating AST. The tree evaluator must raise InvalidExpressionError under every one of the 3^m assignments (all when <= 243, else 60 sampled incl. the three constant ones) iff the criterion says invalid; wrapped into AHB expressions of 1-3 parts the same must hold for evaluate_ahb_expression_tree (3^m*2^n content evaluation results) and is_valid_expression must answer (False, reason) resp. (True, None) for the string and for the resolved tree. One slice is enumerated completely: every expression with up to 3 (thorough: 4) atoms over the keys [1], [2], [501], [901], [902] (3 023 / 122 780 expressions, more than half of them invalid) under all assignments.",
-    "note": "Trusted: ref.validity (structural criterion) and the generator. Expressions whose validity would depend on the unspecified grouping inside an n-ary all-neutral O/X run are never generated. is_valid_expression is only given AHB expressions (with an indicator), as documented. Bounded: <= 10/16 atoms, m+n <= 5 for is_valid_expression. Process configuration by shard (vlib/sut.py; recorded in replay files): plain / parse caches preheated beyond their size / warnings attributed to ahbicht raised as errors / logging fully enabled with every record rendered.",
+    "note": "Trusted: ref.validity (structural criterion) and the generator. Expressions whose validity would depend on the unspecified grouping inside an n-ary all-neutral O/X run are never generated. is_valid_expression is only given AHB expressions (with an indicator), as documented. Bounded: <= 10/16 atoms, m+n <= 5 for is_valid_expression. Process configuration by shard (vlib/sut.py; recorded in replay files): plain / parse caches preheated beyond their size / warnings attributed to ahbicht raised as errors / logging fully enabled with every record rendered; one event loop per process or a new one per call; five process time zones; the hash seed is the shard number; namesakes of ahbicht's marshmallow schema classes are registered.",
     "technique": "property-based testing against a structural reference predicate, with exhaustive assignment enumeration per expression",
 }
 LEVEL = "exploration"
@@ -213,9 +213,20 @@ def strategy_ahb(tier):
                 indicator = indicator.upper()
             ast = None
             cond = None
-            if has_cond:
+            if has_cond and draw(st.sampled_from(range(6))) == 0:
+                # two bracketed compositions of operands that each carry a format constraint: the collected expression
+                # then is a composition of two bracketed multi-key parts, "([901] U [902]) O ([903] U [901])"
+                def pair():
+                    return ["then", [["rc", draw(st.sampled_from(pools["rc"]))], ["fc", draw(st.sampled_from(pools["fc"]))]]]
+
+                kinds = [draw(st.sampled_from(["and", "or", "xor"])) for _ in range(3)]
+                ast = [kinds[0], [[kinds[1], [pair(), pair()]], [kinds[2], [pair(), pair()]]]]
+                cond = gen.render(draw, ast, redundant=False, top=False)
+            elif has_cond:
                 if draw(st.sampled_from([True, True, False])):
-                    ast = draw(gen.g_dom(max_atoms=size, mode="valid", pools=pools))
+                    # half of the valid ones with many attached format constraints: the collected expression that the
+                    # AHB evaluation re-parses and evaluates then has some structure of its own
+                    ast = draw(gen.g_dom(max_atoms=size + 2, mode="valid", pools=pools, fc_dense=draw(st.booleans())))
                 else:
                     ast = draw(gen.g_dom_invalid(max_atoms=size, pools=pools))
                 cond = gen.render(draw, ast, redundant=False, top=False)
@@ -228,7 +239,10 @@ def strategy_ahb(tier):
         truths = [dict.fromkeys(fc_keys, True)]
         if fc_keys:
             truths.append(draw(gen.fc_truth(fc_keys)))
-        return {"parts": parts, "s": text, "assignments": _sampled_assignments(draw, rc_keys, limit=3, sample=12),
+        assignments = _sampled_assignments(draw, rc_keys, limit=3, sample=12)
+        if assignments != "all" and dict.fromkeys(rc_keys, "F") not in assignments:
+            assignments.append(dict.fromkeys(rc_keys, "F"))  # everything attached is binding
+        return {"parts": parts, "s": text, "assignments": assignments,
                 "truths": truths, "validity_check": len(rc_keys) + len(fc_keys) <= 5 and bool(asts)}  # fmt: skip
 
     return build()
